@@ -1,3 +1,5 @@
+//@@ implshape src/parsing/body_reader.rs impl~Read~for~BodyReader read
+//@@ implshape src/parsing/body_reader.rs impl~BufRead~for~BodyReader fill_buf,consume
 // ===================== extracted code: src/parsing/body_reader.rs =====================
 //@@ item src/parsing/body_reader.rs enum BodyReader vis=pub
 //@@ end
